@@ -928,7 +928,9 @@ pub fn gen_c12_stalled(rng: &mut Rng) -> ConnCase {
     let mut c = assemble(rng, &reqs, script, Mode::Open, "i_stall=1");
     // only the first part of the body is ever sent
     let cut = *rng.pick(&[1usize, 200, 1100]);
-    let keep = c.bytes.len() - (total - std::cmp::min(cut, total - 1)) - if c.bytes.ends_with(b"0\r\n\r\n") { 5 } else { 0 };
+    // (the terminal chunk is cut off too — for a chunked body only: a Content-Length body may happen to end in those bytes)
+    let chunked = reqs.last().map_or(false, |r| r.framing == Framing::Chunked);
+    let keep = c.bytes.len() - (total - std::cmp::min(cut, total - 1)) - if chunked && c.bytes.ends_with(b"0\r\n\r\n") { 5 } else { 0 };
     c.bytes.truncate(std::cmp::min(keep, c.bytes.len()));
     c
 }
